@@ -2819,7 +2819,8 @@ class x86_mn(x86_mn_base):
         from miasmx.core.parse_ad import parse_ad
         args = [ parse_ad(a) for a in args ]
         if name == 'push' and args[0][x86_afs.size] == x86_afs.u16:
-            a = args[0]
+            # 'push WORD PTR 5' is an immediate; 'push WORD PTR [eax]' stays a memory operand
+            a = dict(args[0])
             a[x86_afs.ad] = False
             if is_imm(a):
                 args[0][x86_afs.ad] = False
